@@ -2194,6 +2194,9 @@ public:
                                                              std::move(expr.getLHS()),
                                                              std::move(expr.getRHS()));
               cb.genExpr(subtract.get(), currentScope);
+              // Restore the operand pointers.
+              expr.setLHS(subtract->getLHS());
+              expr.setRHS(subtract->getRHS());
             }
             auto trueLabel = cb.getLabel();
             auto endLabel = cb.getLabel();
